@@ -127,10 +127,12 @@ def main(argv=None):
         if kf is not None and kf.get("status") == "known":
             n_known += 1
             if r["status"] == "failed":
-                resid = by_name.get(name + "/residual")
-                if resid is None or resid["status"] != "proved":
-                    # the residual is counted on its own line below; a failing residual is a new violation
-                    pass
+                need_res = kf.get("residual")
+                if need_res:
+                    resid = by_name.get(need_res)
+                    if resid is None:
+                        broken.append("known finding %s names a residual obligation %s that was not generated" % (name, need_res))
+                    # (a failing residual is an ordinary obligation: it is reported as a violation below)
                 known_lines.append("KNOWN-FINDING: property=%s %s [%s]" % (a.prop, kf.get("what", ""), name))
             elif r["status"] == "proved":
                 known_lines.append("NOTE: known finding %s no longer reproduces (obligation verifies); update known_findings.json" % name)
